@@ -22,6 +22,7 @@ THEOREMS = ['dec_roundtrip', 'string_roundtrip', 'events_wellformed', 'parse_ren
 COQ_DIR = os.path.join(C.VERIF, 'c15', 'coq')
 COQ_LOGICAL = '-R %s/coq AwkV -R . AwkJson' % C.VERIF
 NEEDS_SAN = True
+DRIVERS = ('jsondrv',)
 B15 = os.path.join(C.BUILD, 'c15')
 
 RULE = ('tojson: value-first random layouts (all node classes and widths, strings with escapes / control bytes / '
